@@ -118,3 +118,40 @@ func H_C02_ntlm_v2() {
 	}
 	vCover("end")
 }
+
+// The responses inside the AUTHENTICATE message built from a challenge: with extended session security the NT response
+// is an NTLMv2 response that verifies under NTOWFv2(password, user, domain-as-supplied) — whatever character set the
+// names are sent in (the UNICODE flag only selects the encoding of the name fields, not the key derivation).
+func H_C02_ntlm_authenticate_verifies() {
+	flags := vU32("flags") | NTLMSSP_NEGOTIATE_EXTENDED_SESSIONSECURITY
+	if vParam("unicode") == 1 {
+		flags |= NTLMSSP_NEGOTIATE_UNICODE
+	} else {
+		flags &^= NTLMSSP_NEGOTIATE_UNICODE
+	}
+	ch := &ChallengeMessage{NegotiateFlags: flags}
+	copy(ch.ServerChallenge[:], vBytes("server", 8))
+	ch.TargetInfo = vBytes("ti", 4)
+	user, _, userUp16 := c02ascii("user", vParam("ulen"))
+	domain, dom16, _ := c02ascii("domain", vParam("dlen"))
+	ws, _, _ := c02ascii("ws", 2)
+	pw, pw16, _ := c02ascii("pw", vParam("plen"))
+	msg, err := CreateAuthenticateMessage(ch, user, pw, domain, ws)
+	vCheck(err == nil && len(msg) >= 88, "ntlm/authenticate/ok")
+	if err != nil || len(msg) < 88 {
+		return
+	}
+	ntResp, _, ok := c08field(msg, 20, "ntlm/authenticate/nt-response")
+	if !ok || len(ntResp) < 44 {
+		vCheck(false, "ntlm/authenticate/nt-response-is-an-NTLMv2-response")
+		return
+	}
+	nt := refMD4(pw16)
+	ntowf := c02hmac(nt[:], userUp16, dom16)
+	vCheck(vBytesEq(ntResp[:16], c02hmac(ntowf, ch.ServerChallenge[:], ntResp[16:])), "ntlm/authenticate/NTProofStr-verifies-under-NTOWFv2")
+	lmResp, _, ok := c08field(msg, 12, "ntlm/authenticate/lm-response")
+	if ok && len(lmResp) == 24 {
+		vCheck(vBytesEq(lmResp[:16], c02hmac(ntowf, ch.ServerChallenge[:], lmResp[16:])), "ntlm/authenticate/LMv2-verifies-under-NTOWFv2")
+	}
+	vCover("end")
+}
